@@ -141,11 +141,81 @@ class Sys:
         return bad
 
 
+class StarSys(Sys):
+    """OrbitTriple.tla with StarHost = TRUE: PhysicsOrbit(star=sol, tidal_host=sol, tidal_bodies=earth_simple).  The planet's own orbit is
+    its stellar orbit; value ids are semi-major axes, the other forms are derived here with the current true masses."""
+
+    def __init__(self, form):
+        import logging
+        import TidalPy  # noqa
+        logging.disable(logging.WARNING)
+        from TidalPy.structures import build_world
+        from TidalPy.structures.orbit import PhysicsOrbit
+        self.form = form
+        self.star = build_world('sol')
+        self.host = self.star
+        self.moon = build_world('earth_simple')
+        self.o = PhysicsOrbit(self.star, tidal_host=self.star, tidal_bodies=self.moon)
+        self.A = [float(self.o.get_semi_major_axis(self.moon)), 1.2e11, 2.1e11]
+        self.buffers = {}
+        self.moon_mass = [float(self.moon.mass), 400.0 * float(self.moon.mass)]
+        self.stale = []
+
+    def moon_arg(self, kind, i):
+        from TidalPy.utilities.conversions import semi_a2orbital_motion, rads2days
+        a = self.A[i]
+        n = float(semi_a2orbital_motion(a, float(self.star.mass), float(self.moon.mass)))
+        if kind == "a":
+            return "semi_major_axis", self.shape(("moon", "a"), a, i)
+        if kind == "n":
+            return "orbital_frequency", self.shape(("moon", "n"), n, i)
+        return "orbital_period", self.shape(("moon", "P"), float(rads2days(n)), i)
+
+    def perform(self, act, p):
+        if act == "StellarDistance":
+            v, via = p
+            val = self.shape(("st", "a"), self.A[v], v)
+            if via == "host":
+                self.o.set_stellar_distance(self.moon, val)
+            else:
+                self.moon.stellar_distance = val
+        elif act in ("StellarSet", "HostMass"):
+            raise ValueError(act)
+        else:
+            Sys.perform(self, act, p)
+
+    def check(self, st):
+        from TidalPy.constants import G
+        o = self.o
+        bad = []
+        a, n, P = (o.get_semi_major_axis(self.moon), o.get_orbital_frequency(self.moon), o.get_orbital_period(self.moon))
+        if a is None or n is None or P is None:
+            return [{"orbit": "star_host", "what": "unset", "detail": "a/n/P = %r/%r/%r" % (a, n, P)}]
+        a, n, P = (np.asarray(x, dtype=float) for x in (a, n, P))
+        r2 = float(np.max(np.abs(P * 86400.0 * n / (2 * math.pi) - 1.0)))
+        r1 = float(np.max(np.abs(n ** 2 * a ** 3 / (G * (float(self.star.mass) + float(self.moon.mass))) - 1.0)))
+        if st.get("moon_current", True):
+            if r1 > 1e-12 or r2 > 1e-12:
+                bad.append({"orbit": "star_host", "what": "kepler", "detail": "n^2 a^3/(G(M+m)) - 1 = %.3g (current masses), P n/2pi - 1 = %.3g" % (r1, r2)})
+            if abs(float(a.ravel()[0]) / self.A[st["moon"]] - 1.0) > 1e-12:
+                bad.append({"orbit": "star_host", "what": "value", "detail": "semi-major axis %r, spec value id %d = %r" % (float(a.ravel()[0]), st["moon"], self.A[st["moon"]])})
+        else:
+            r_then = float(np.max(np.abs(n ** 2 * a ** 3 / (G * (float(self.star.mass) + self.moon_mass[st["moon_m"][0]])) - 1.0)))
+            if r1 > 1e-12:
+                self.stale.append({"orbit": "star_host", "r_current": r1, "r_then": r_then})
+            if r_then > 1e-12 or r2 > 1e-12:
+                bad.append({"orbit": "star_host", "what": "kepler_stale", "detail": "triple kept across a mass change is not the old Keplerian one: %.3g, P n/2pi - 1 = %.3g" % (r_then, r2)})
+        sd = o.get_stellar_distance(self.moon)
+        if sd is None or float(np.max(np.abs(np.asarray(sd, dtype=float) / a - 1.0))) > 1e-12:
+            bad.append({"orbit": "star_host", "what": "stellar_distance", "detail": "get_stellar_distance = %r, semi-major axis %r" % (sd, a.tolist())})
+        return bad
+
+
 def main():
     job = json.load(open(sys.argv[1]))
     res = []
     for beh in job["behaviours"]:
-        S = Sys(job["form"])
+        S = (StarSys if job.get("star_host") else Sys)(job["form"])
         out = {"steps": 0, "bad": None, "stale": S.stale}
         for k, (act, params, st) in enumerate(beh):
             try:
